@@ -28,6 +28,8 @@ CONSTANTS IDs, MaxDg, MaxRep, MaxEnt, Idle, MaxT, MaxFault,
           CheckEveryDgram,      \* policy checked for every datagram (not only while the cache has room)
           LockAcrossDial,       \* TRUE: connLock is held from the closed-check to the attachment of the socket (FALSE: released during the dial)
           FailPathCloses,       \* TRUE: a failed dial goes through CloseWithErr (sets closed); FALSE: calls ExitFunc directly
+          FragHdr,              \* TRUE: a complete datagram may be the last fragment of a packet whose first fragment named another destination
+          VetWritten,           \* TRUE: the destination that is vetted is the one the datagram is written to (mutant: the one the packet's first fragment named)
           VetRewritten,         \* TRUE: the dial is made with the address the hook returned (mutant: with the original one)
           StampOwnID,           \* reply loop stamps the entry's own ID
           GenHist,              \* record the environment's actions in hist (generator configs)
@@ -66,11 +68,13 @@ DeleteByID(e) == [map EXCEPT ![ents[e].id] = NoEnt]
 RxIdle == rx.pc = "idle"
 
 \* environment: the client sends a datagram (complete, or a lone first fragment)
-Arrive(sid, dst, complete) ==
+\* `first`: the destination named by the first fragment of the packet this datagram completes (= dst when the packet
+\* is not fragmented or the peer repeats the same header in every fragment, as honest clients do)
+Arrive(sid, dst, complete, first) ==
   /\ RxIdle /\ ~down /\ ndg < MaxDg
-  /\ H([op |-> "dg", sid |-> sid, dst |-> dst, complete |-> complete, e |-> 0, src |-> 0])
+  /\ H([op |-> "dg", sid |-> sid, dst |-> dst, complete |-> complete, e |-> 0, src |-> 0, first |-> first])
   /\ ndg' = ndg + 1
-  /\ rx' = [pc |-> "look", sid |-> sid, dst |-> dst, ent |-> NoEnt, complete |-> complete, tag |-> ndg + 1, nilerr |-> FALSE, todo |-> <<>>]
+  /\ rx' = [pc |-> "look", sid |-> sid, dst |-> dst, ent |-> NoEnt, complete |-> complete, first |-> first, tag |-> ndg + 1, nilerr |-> FALSE, todo |-> <<>>]
   /\ Feed1(Base("Dgram") @@ [sid |-> sid, dst |-> dst, tag |-> ndg + 1, complete |-> complete])
   /\ UNCHANGED <<ents, map, socks, rl, sw, now, nrep, nfault, down>>
 
@@ -139,16 +143,17 @@ RxCheckWrite ==
   /\ UNCHANGED hist
   /\ LET e == rx.ent
          hooked == ents[e].to # 0
-         cached == rx.dst \in ents[e].acl
+         vet == IF VetWritten THEN rx.dst ELSE rx.first
+         cached == vet \in ents[e].acl
          full == Cardinality(ents[e].acl) >= AclCap
          \* verdict: cached verdicts are stored together with the key; here the cache holds (dst) and the verdict is Allow-membership
          verdict == IF hooked THEN TRUE
-                    ELSE IF cached THEN rx.dst \in Allow
+                    ELSE IF cached THEN vet \in Allow
                     ELSE IF ~CheckEveryDgram /\ full THEN TRUE        \* mutant: no check once the cache is full
-                    ELSE rx.dst \in Allow
+                    ELSE vet \in Allow
          acl2 == IF hooked \/ cached THEN ents[e].acl
-                 ELSE IF full THEN (ents[e].acl \ {CHOOSE x \in ents[e].acl : TRUE}) \cup {rx.dst}
-                 ELSE ents[e].acl \cup {rx.dst}
+                 ELSE IF full THEN (ents[e].acl \ {CHOOSE x \in ents[e].acl : TRUE}) \cup {vet}
+                 ELSE ents[e].acl \cup {vet}
          dst == IF hooked THEN ents[e].to ELSE rx.dst
      IN /\ ents' = [ents EXCEPT ![e].acl = acl2]
         /\ IF verdict
@@ -314,7 +319,7 @@ Observe ==
 
 Init ==
   /\ ents = <<>> /\ map = [i \in IDs |-> NoEnt] /\ socks = <<>> /\ rl = <<>>
-  /\ rx = [pc |-> "idle", sid |-> 0, dst |-> 0, ent |-> NoEnt, complete |-> FALSE, tag |-> 0, nilerr |-> FALSE, todo |-> <<>>]
+  /\ rx = [pc |-> "idle", sid |-> 0, dst |-> 0, ent |-> NoEnt, complete |-> FALSE, first |-> 0, tag |-> 0, nilerr |-> FALSE, todo |-> <<>>]
   /\ sw = [pc |-> "idle", pending |-> FALSE, todo |-> <<>>, ent |-> NoEnt]
   /\ hist = <<>>
   /\ now = 0 /\ ndg = 0 /\ nrep = 0 /\ nfault = 0 /\ down = FALSE
@@ -322,7 +327,7 @@ Init ==
   /\ mon8 = [C08!MonInit EXCEPT !.allow = Allow]
 
 Next ==
-  \/ \E sid \in IDs, dst \in Dsts, c \in BOOLEAN : Arrive(sid, dst, c)
+  \/ \E sid \in IDs, dst \in Dsts, c \in BOOLEAN : \E f \in (IF FragHdr /\ c THEN Dsts ELSE {dst}) : Arrive(sid, dst, c, f)
   \/ RxLook \/ RxTouch \/ (\E f \in BOOLEAN : RxInit(f)) \/ RxAttach
   \/ RxCheckWrite \/ RxCA \/ RxCB \/ RxCC \/ RxNext \/ ConnLoss
   \/ \E e \in 1..Len(ents) :
